@@ -135,10 +135,8 @@ func readImport(r Reader, cat Catalog) (SharedSymbolTable, error) {
 				version = *val
 			}
 		case "max_id":
-			if r.Type() == IntType {
-				if r.IsNull() {
-					return nil, fmt.Errorf("ion: max id is null")
-				}
+			// A null max_id is an undefined one, like an absent one.
+			if r.Type() == IntType && !r.IsNull() {
 				i, err := r.Int64Value()
 				if err != nil {
 					return nil, err
